@@ -165,6 +165,13 @@ class CapturedKernel:
             return
         # pystencils would read outside the array if the ghost layers of a sliced kernel are missing
         svals = [kwargs[s.name] for s in self.scalars]
+        if self._hazard(arrs):
+            # a written array shares memory with an array that is read at another cell (or through a different view): the value
+            # of the vectorised "evaluate on the pre-state" execution below is NOT what a compiled kernel computes; execute cell by
+            # cell in memory (row-major) order, as the serial compiled loop nest does
+            HAZARD_CALLS.append(self.name)
+            self._call_sequential(arrs, svals, reg, shape)
+            return
         for wname, accs, f in self._fn:
             views = []
             for fname, off in accs:
@@ -180,6 +187,43 @@ class CapturedKernel:
             if np.ndim(val) != 0:
                 val = np.array(val, copy=True)  # rhs fully evaluated on the pre-state
             out[idx] = val
+
+
+def _same_view(a, b):
+    return (a.__array_interface__["data"][0] == b.__array_interface__["data"][0] and a.shape == b.shape and a.strides == b.strides)
+
+
+def _hazard(self, arrs):
+    zero = (0,) * self.ndim
+    for wname, accs, _f in self._fn:
+        w = arrs[wname]
+        for fname, off in accs:
+            if fname == wname:
+                continue
+            a = arrs[fname]
+            if np.shares_memory(w, a) and not (_same_view(w, a) and tuple(off) == zero):
+                return True
+    return False
+
+
+def _call_sequential(self, arrs, svals, reg, shape):
+    import itertools as _it
+
+    for _w, accs, _f in self._fn:
+        for fn, off in accs:
+            for (lo, hi), o, n in zip(reg, off, shape):
+                if lo + o < 0 or hi + o > n:
+                    raise IndexError(f"shim: kernel {self.name} reads outside array")
+    with np.errstate(all="ignore"):
+        for cell in _it.product(*[range(lo, hi) for lo, hi in reg]):
+            for wname, accs, f in self._fn:
+                vals = [arrs[fn][tuple(c + o for c, o in zip(cell, off))] for fn, off in accs]
+                arrs[wname][cell] = f(*vals, *svals)
+
+
+CapturedKernel._hazard = _hazard
+CapturedKernel._call_sequential = _call_sequential
+HAZARD_CALLS = []
 
 
 def lambdify_exact(args, expr, modules="numpy"):
